@@ -22,7 +22,6 @@ func bioType() *base.CreditType {
 	return &base.CreditType{Abbreviation: "BIO", Name: "biodiversity", Unit: "ha", Precision: 6}
 }
 
-var baseCreditType = *bioType()
 
 // ---------------------------------------------------------------------------------------------
 // 4. basket
@@ -45,8 +44,9 @@ func critTime(dc *basket.DateCriteria, t time.Time) (time.Time, bool) {
 
 const magnitude = "9999999999999999999999999999.999999"
 
-func runBasket(family string, n int, seed uint64, tier string) *Result {
+func runBasket(c Cfg) *Result {
 	// block times: some histories cross a year boundary exactly
+	n := c.N
 	plan := n % 4
 	gt := T0
 	yearEnd := time.Time{}
@@ -61,7 +61,7 @@ func runBasket(family string, n int, seed uint64, tier string) *Result {
 	if !yearEnd.IsZero() {
 		gt = yearEnd.Add(-10 * time.Minute)
 	}
-	g := NewG(family, n, seed, tier, chain.Options{GenesisTime: gt})
+	g := NewG(c, chain.Options{GenesisTime: gt})
 	g.badPct = 15
 	a := g.App
 
@@ -262,8 +262,8 @@ func runBasket(family string, n int, seed uint64, tier string) *Result {
 // ---------------------------------------------------------------------------------------------
 // 5. bridge
 
-func runBridge(family string, n int, seed uint64, tier string) *Result {
-	g := NewG(family, n, seed, tier, chain.Options{GenesisTime: T0})
+func runBridge(c Cfg) *Result {
+	g := NewG(c, chain.Options{GenesisTime: T0})
 	g.badPct = 12
 	a := g.App
 	g.Begin(g.now.Add(6 * time.Second))
@@ -419,8 +419,8 @@ func runBridge(family string, n int, seed uint64, tier string) *Result {
 // ---------------------------------------------------------------------------------------------
 // 6. roles
 
-func runRoles(family string, n int, seed uint64, tier string) *Result {
-	g := NewG(family, n, seed, tier, chain.Options{GenesisTime: T0})
+func runRoles(c Cfg) *Result {
+	g := NewG(c, chain.Options{GenesisTime: T0})
 	a := g.App
 	g.Begin(g.now.Add(6 * time.Second))
 	g.setupDenoms()
